@@ -1,8 +1,11 @@
 """C06 — FITS serialisation round-trips every table exactly, in the documented layout.
 Proof: PsV/Props/C06.lean (C06_roundtrip, strides_reconstructed, legacy_order_key, missing_extents_defaults,
-       be_bits_roundtrip, decode_encode, aux_values_gain_blanks_only — aux values with apostrophes included).
+       be_bits_roundtrip, decode_encode, aux_values_gain_blanks_only — aux values with apostrophes included;
+       encoder_meets_layout, layout_file_is_read, independent_reader_arrays, reversed_axes_are_row_major, coefficient_bits_written / _read,
+       nan_bits_preserved, period_text_roundtrip, conversions_not_used, accepted_storable, write_key_entries_accepted,
+       C06_accepted_roundtrip, aux_extname_breaks_roundtrip, order_2p31_not_read).
 Tie (exact): (a) bytes of real write_fits / write_fits_mem → Lean decodeFits = writeCore t, and encodeFits (writeCore t) is
-byte-identical to the real file; (b) Lean-encoded files (current layout and legacy variants) → real read_fits and
+byte-identical to the real file, and so is Layout.layoutBytes t, the independent specification of the documented layout; (b) Lean-encoded files (current layout and legacy variants) → real read_fits and
 read_fits_mem = model readCore; (c) real write → real read: operator==, field-by-field bits, identical evaluation — the
 property's own oracle, computed here without the model (aux values: 14 classes with apostrophes, see harness/fits_common.h
 gen_value_q; read back = written + blanks only); (d) shipped test_data/*.fits: real readers = readCore (decodeFits
@@ -95,8 +98,8 @@ def run(ctx, n_override=None):
                     ctx.coverage["samples"].append({"ndim": cur["ndim"], "order": cur["order"], "naxes": cur["naxes"], "naux": len(cur["aux"]), "backend": flags.get("backend"), "eq": flags.get("eq"), "eval": flags.get("eval")})
             elif w[0] == "B":
                 evals += 1
-                if m != "A %s 1 1 1" % w[1]:
-                    broken("(a) real writer bytes vs model store (decoded, store-equal, bytes-equal)", model=m, table=cur_line[:1500], line=k + 1)
+                if m != "A %s 1 1 1 1" % w[1]:
+                    broken("(a) real writer bytes vs model store and vs the independent layout specification (decoded, store-equal, bytes-equal, layout-equal)", model=m, table=cur_line[:1500], line=k + 1)
             elif w[0] == "V":
                 evals += 1
                 _, single, vm = c.split()[1:4]
@@ -142,6 +145,7 @@ def run(ctx, n_override=None):
     ctx.coverage["input_distribution"] = stats_all
     ctx.assumptions += [
         "cfitsio 4.2 is modelled at its API (abstract store), validated each run by byte-identity of encodeFits (writeCore t) with the real file and by the real readers on Lean-encoded files",
+        "the documented layout is the executable specification PsV/Model/FitsLayout.lean (layoutBytes), compared byte for byte with every file the real writer produced in this run",
         "aux keys: standard 1..8 character keywords [A-Z0-9] accepted by write_key, not one of the FITS-semantic names (END, HISTORY, CONTINUE, EXTNAME, HDUNAME, BSCALE, BZERO, BLANK, ...); values printable ASCII, apostrophes included, as write_key accepts them for a standard keyword (length + number of apostrophes <= 68); long (HIERARCH) keys: C16",
         "an aux value read back may differ from the value written by trailing blanks only; the number of blanks is checked against the FITS rule (stored form, apostrophes doubled, padded to 8 characters) — a disagreement with that rule alone is reported as a broken tie, not as a property violation",
         "PERIODn values are not part of the property (15-digit decimal text); generated periods are multiples of 0.25 so that they round-trip",
